@@ -98,9 +98,11 @@ class Ctx:
 # Coq runner
 
 
-def _lock():
+def _lock(name=""):
+    """Global lock (name == "") for the shared prebuilt libraries; one lock per property for its own
+    Gen-dependent and property files, so that checks of different properties compile concurrently."""
     os.makedirs(WORK, exist_ok=True)
-    f = open(os.path.join(WORK, ".coq.lock"), "w")
+    f = open(os.path.join(WORK, ".coq%s.lock" % (("." + name) if name else "")), "w")
     fcntl.flock(f, fcntl.LOCK_EX)
     return f
 
@@ -220,7 +222,7 @@ def build_obligations(ctx, files, prop_files, timeout=1500):
         for (n, _l, k) in theorems_in(os.path.join(COQ, pf)):
             if k in ("Theorem",):
                 res.obligations.append(n)
-    lock = _lock()
+    lock = _lock(ctx.pid)
     try:
         for rel in files + prop_files:
             rc, so, se, cmd = coqc(rel, timeout=timeout)
@@ -314,7 +316,8 @@ def float_to_R(x):
 
 
 def load_findings():
-    p = os.path.join(VERIF, "known_findings.json")
+    # VERIF_FINDINGS: development only (lets a property author test a proposed entry privately)
+    p = os.environ.get("VERIF_FINDINGS") or os.path.join(VERIF, "known_findings.json")
     if not os.path.exists(p):
         return []
     with open(p) as f:
